@@ -114,6 +114,12 @@ func (g *Gen) Genesis() *GenesisCfg {
 		}
 		cfg.AcctBalances = append(cfg.AcctBalances, b)
 	}
+	// twins: two accounts with identical liquid balances and nothing else (exact opposing vote weights)
+	if r.Chance(0.6) {
+		bal := Pick(r, []int64{5_000_000_000, 77_000_000, 1_000_000_000_000})
+		cfg.Twins = []int{na, na + 1}
+		cfg.AcctBalances = append(cfg.AcctBalances, bal, bal)
+	}
 	// genesis delegations of plain accounts (reporter/selector material; the ante 5 % rule makes later large delegations impossible)
 	for i := 0; i < na; i++ {
 		if r.Chance(0.7) {
@@ -156,7 +162,7 @@ func (g *Gen) Genesis() *GenesisCfg {
 			cfg.GenDelegations = append(keep, GenDelegation{Acct: i, Val: val, Amount: amt})
 		}
 	}
-	cfg.MaxValidators = Pick(r, []uint32{100, 100, 100, uint32(max(2, nv-1)), uint32(nv)})
+	cfg.MaxValidators = Pick(r, []uint32{100, 100, 100, uint32(nv), uint32(nv)}) // never below the genesis validator count (a bonded validator outside the active set is not a reachable state)
 	cfg.UnbondingSec = Pick(r, []int64{21 * 86400, 21 * 86400, 3 * 86400, 3600})
 	cfg.MinTrb = Pick(r, []int64{1_000_000, 1_000_000, 2_000_000, 10_000_000})
 	cfg.MaxSelectors = Pick(r, []uint64{100, 100, 5, 2, 1})
